@@ -75,6 +75,16 @@ def request(spec):
         F = pools[spec["kind"]][spec["key"]]
         dA = arg(dom, 1, (g, g), 2)
         return F, {A: dA}, derivative(F, A, dA), extra
+    if kind in ("A_comp", "A_comps"):
+        # one / two fixed components of a tensor-valued coefficient
+        F = pools[spec["kind"]][spec["key"]]
+        ds = arg(dom, 1, (), 2)
+        c0 = tuple(spec.get("comp", (0, g - 1)))
+        if kind == "A_comp":
+            return F, {A: {c0: ds}}, derivative(F, A[c0], ds), extra
+        c1 = (g - 1, 0)
+        dh = coef(dom, (), count=693)
+        return F, {A: {c0: ds, c1: dh}}, derivative(F, (A[c0], A[c1]), (ds, dh)), extra
     if kind in ("tuple", "tuple_rev", "tuple_auto"):
         F = pools[spec["kind"]][spec["key"]]
         du = arg(dom, 1, (), 2)
@@ -222,12 +232,17 @@ def specs(tier):
                 add(cell=cell, gdim=g, kind="s", key=key, wrt="cd_two")
                 add(cell=cell, gdim=g, kind="s", key=key, wrt="w_twice")
                 add(cell=cell, gdim=g, kind="s", key=key, wrt="w_comp", comp=1)
+                if key in ("tr", "innerAA", "det", "Aww", "A01"):
+                    add(cell=cell, gdim=g, kind="s", key=key, wrt="A_comp")
+                    add(cell=cell, gdim=g, kind="s", key=key, wrt="A_comp", comp=(1, 1))
+                    add(cell=cell, gdim=g, kind="s", key=key, wrt="A_comps")
         for key in vk:
             for wrt in ("u", "w", "w_comp", "A", "w_twice", "tuple_rev"):
                 add(cell=cell, gdim=g, kind="v", key=key, wrt=wrt)
         for key in tk:
-            for wrt in ("u", "w", "A"):
+            for wrt in ("u", "w", "A", "A_comp", "A_comps"):
                 add(cell=cell, gdim=g, kind="t", key=key, wrt=wrt)
+            add(cell=cell, gdim=g, kind="t", key=key, wrt="A_comp", comp=(1, 0))
         for key in ("stokes", "convect", "mass"):
             for wrt in ("mixed", "mixed_split", "mixed_sub"):
                 add(cell=cell, gdim=g, kind="m", key=key, wrt=wrt, twin=(key == "mass" and wrt == "mixed"))
